@@ -341,3 +341,28 @@ class change_is_relevant:
     ensures = _cir_post
     result = ty.Bool
     modifies = []
+
+
+# ---- Workflow.steps: the statement behind "the attached steps in this state" (the witness clause stays assumed)
+
+STEPS_SQL = "SELECT i, label FROM node JOIN step ON node.i = step.node WHERE state = ? AND NOT detached"
+
+
+def _steps_finish(c, outcome, args, old):
+    if outcome[0] != "return":
+        return
+    st = [e for e in c.trace if e.kind == "sql"]
+    ok = len(st) == 1 and sqlfront.match_key(st[0].sql) == sqlfront.match_key(STEPS_SQL) and isinstance(st[0].args, tuple) \
+        and len(st[0].args) == 1
+    c.prove("selects_attached_steps_in_the_state_asked_for", tm.And(tm.mk_bool(ok), *(
+        [tm.Eq(I(st[0].args[0]), I(args["state"]))] if ok else [])), kind="sql", detail=str([e.sql for e in st]))
+
+
+_st = engine.REGISTRY["stepup/core/workflow.py::Workflow.steps"]
+_st.assume_post, _st.ensures = _st.ensures, None
+_st.verify = True
+_st.props = ["C19", "C05", "C04"]
+_st.note = "the witness clause (a non-empty result has an attached step row in that state) is assumed; the statement is verified"
+_st.args = dict(self=lambda a: workflow_spec([(STEPS_SQL, ty.TupleOf(ty.Int, ty.Str))]).fresh("workflow"),
+                state=ty.EnumOf(common.enums.StepState))
+_st.finish = _steps_finish
